@@ -126,15 +126,16 @@ theorem parse_style (r : Str) (nid : Nat) (hwf : Term.wellFormed r = true) (i : 
     (h : i < (Term.stripSgr r).length) :
     eff (act (AStr.setAnsi r nid).1 i) =
       ((Term.run Term.default r).1[i]'(by simpa [Term.stripSgr] using h)).2 := by
-  have hd := parse_style_den r nid hwf
-  have h2 : i < (den (AStr.setAnsi r nid).1).length := by
-    unfold den; rw [C02.parse_text]; simpa using h
-  have : (den (AStr.setAnsi r nid).1)[i]'h2 =
-      (Term.run Term.default r).1[i]'(by simpa [Term.stripSgr] using h) := by
-    simp only [hd]
-  rw [← this]
-  unfold den
-  simp
+  have hlen : i < (Term.run Term.default r).1.length := by simpa [Term.stripSgr] using h
+  have e1 : ((Term.run Term.default r).1)[i]? = (den (AStr.setAnsi r nid).1)[i]? := by
+    rw [parse_style_den r nid hwf]
+  have e2 : (den (AStr.setAnsi r nid).1)[i]? =
+      some ((Term.stripSgr r)[i], eff (act (AStr.setAnsi r nid).1 i)) := by
+    unfold den
+    rw [C02.parse_text]
+    simp [h]
+  have e3 := (List.getElem?_eq_getElem hlen).symm.trans (e1.trans e2)
+  rw [Option.some.inj e3]
 
 /-- the same as a list: the states of the displayed characters, in order -/
 theorem parse_style_list (r : Str) (nid : Nat) (hwf : Term.wellFormed r = true) :
@@ -145,6 +146,16 @@ theorem parse_style_list (r : Str) (nid : Nat) (hwf : Term.wellFormed r = true) 
   rw [C02.parse_text, List.map_map, List.range_eq_range', ← List.zipIdx_map_snd 0 (Term.stripSgr r),
     List.map_map]
   rfl
+
+/-- the constructor `AnsiString(r)` / `AnsiStr(r)` without further settings is `set_ansi_str(r)` -/
+theorem parse_style_ofStr (r : Str) (nid : Nat) (y : AStr) (hwf : Term.wellFormed r = true)
+    (h : AStr.ofStr r [] nid = .ok y) : den y = (Term.run Term.default r).1 := by
+  have e : AStr.ofStr r [] nid = .ok (AStr.setAnsi r nid).1 := rfl
+  rw [e] at h
+  cases h
+  exact parse_style_den r nid hwf
+
+example : (AStr.ofStr ex [] 0).toOption = some (AStr.setAnsi ex 0).1 := rfl
 
 -- both sides on the running examples, character by character (`TState` is a function: compared
 -- through `toList`, the values of all 14 groups)
@@ -259,6 +270,7 @@ end C02b
 #print axioms C02b.parse_style_den
 #print axioms C02b.parse_style
 #print axioms C02b.parse_style_list
+#print axioms C02b.parse_style_ofStr
 #print axioms C02b.wellFormed_needed
 #print axioms C02b.parse_style_plain
 #print axioms C02b.run_plain
